@@ -487,6 +487,26 @@ def run(tier, seed, which="C03"):
                 ob.update({"verdict": "inconclusive", "message": "engine-S counterexample (%s) did not reproduce on the real LogInnerManager (%s %s)" % (ob["message"], rr["outcome"], rr["message"])})
             else:
                 ob["message"] = "%s [real code: %s]" % (ob["message"], rr["message"][:300])
+    if which == "C03":
+        # the level above one file: which files of the catalogue a truncation reaches (RaftLogManager::strip_log_to_index)
+        from . import c03files
+        from .common import native_scenarios
+        fob = c03files.run(tier, seed)
+        if fob.get("verdict") == "violation":
+            rr = native_scenarios("C03", "violation", ["truncate_behind_snapshot_pointer"], fob["message"], {"obligation": fob["harness"], "model": fob.get("counterexample")})
+            fob["replay_path"] = rr["path"]
+            fob["replay"] = {"path": rr["path"], "outcome": rr["outcome"], "message": rr["message"]}
+            if rr["outcome"] != "reproduced":
+                fob.update({"verdict": "inconclusive", "message": "engine-S counterexample (%s) did not reproduce on a real node (%s %s)" % (fob["message"], rr["outcome"], rr["message"])})
+            else:
+                fob["message"] = "%s [real node, through RaftStorage::delete_logs_from: %s]" % (fob["message"], rr["message"][:400])
+        elif fob.get("verdict") == "discharged":
+            nv = native_scenarios("C03", "validate", ["truncate_behind_snapshot_pointer", "truncate_behind_installed_snapshot"])
+            info["translator_validation_node"] = {"outcome": nv["outcome"], "message": nv["message"], "path": nv["path"]}
+            if nv["outcome"] != "passed":
+                obligations.append({"engine": "smt", "harness": "s03_node_validation", "verdict": "inconclusive", "queries": 0, "solver_s": 0,
+                                    "message": "the file-selection obligation is discharged but a real node does not truncate behind a snapshot pointer file: %s" % nv["message"]})
+        obligations.append(fob)
     val = native_validate(obligations, seed, 6 if tier == "quick" else 24)
     for ob in obligations:
         ob.pop("_ok_paths", None)
